@@ -85,6 +85,37 @@ func propSpecs() map[string]*PropSpec {
 		Outside: []string{"trees deeper than the bounded programs produce"},
 		Stubs:   []string{tokStub},
 	})
+	c07 := func(maxK, maxLadder, nCorrupt, nLayout int64) []RunSpec {
+		r := tokRuns("H_C07", maxK, 0)
+		for n := int64(1); n <= maxLadder; n++ {
+			shapes := int64(6)
+			if n >= 4 {
+				shapes = 2
+			}
+			for sh := int64(0); sh < shapes; sh++ {
+				r = append(r, rs("H_C07ladder", n, sh))
+			}
+		}
+		for c := int64(0); c <= nCorrupt; c++ {
+			for i := int64(0); i < 20; i++ {
+				r = append(r, rs("H_C07seed", i, c))
+			}
+		}
+		for i := int64(0); i < nLayout; i++ {
+			r = append(r, rs("H_C07layout", i))
+		}
+		return r
+	}
+	add(&PropSpec{
+		ID: "C07", Title: "the parser builds the tree the documented grammar dictates",
+		Quick:    c07(5, 3, 1, 8),
+		Thorough: c07(6, 5, 2, 20),
+		Covers:   []string{"in-grammar", "not-in-grammar", "layout-checked", "synonyms"},
+		Bounds: map[string]string{"quick": "all token sequences of length <= 5 (78 lexemes) the reference grammar derives; operator ladders with <= 3 arbitrary binary operators over 6 operand decorations (sign, call, index, parentheses, in-list); 20 seed programs plain and with one arbitrary corruption; layout: one arbitrary gap of 3 bytes over {space tab newline / NBSP} in 8 seed programs, with and without keyword synonyms",
+			"thorough": "length <= 6; ladders <= 5 operators; two corruptions; layout on all 20 seeds"},
+		Outside: []string{"programs longer/deeper than the bounds", "constructs deliberately not in the reference grammar (no claim either way): chained indexing a[1][2], a comma before summarize's by", "more than one non-canonical gap at a time"},
+		Stubs:   []string{tokStub, "layout family uses the real lexer (nothing stubbed)"},
+	})
 	seeds13 := func(n int64) []RunSpec {
 		var r []RunSpec
 		for i := int64(0); i < 20; i++ {
